@@ -2611,7 +2611,156 @@ def special_c18(tier, seed):
         fails.append((f"JIT driver exited with {r.returncode}", {"stderr": r.stderr[-1500:]}, True))
     if len(lines) < 8 * n and r.returncode == 0:
         fails.append(("JIT driver produced fewer cases than requested", {"stdout": r.stdout[-500:]}, False))
-    return dict(evaluations=len(lines), fails=fails, samples=lines[:3], dist=dist, nontrivial=nontriv)
+    # ---- the generated programs themselves: IR emitted by the implementation == program generated by the model
+    nprog = jit_programs_tie(exe, seed, 6 if tier == "quick" else 120, fails, dist)
+    return dict(evaluations=len(lines) + nprog, fails=fails, samples=lines[:3], dist=dist, nontrivial=nontriv + nprog)
+
+def jit_run_prog(prog, L, mem):
+    """python execution of a canonical lane-loop program (tools/jit_ir.py) on `mem` = dict a0,a1,a2,buf of lists"""
+    def ld(loc, i):
+        return mem["buf"][i] if loc[0] == "buf" else mem["a%d" % loc[1]][i + loc[2]]
+    def ev(e, i):
+        if e[0] == "ld": return ld(e[1], i)
+        if e[0] == "const": return unhex(e[1])
+        if e[0] == "argval": return mem["s"]
+        a, b = ev(e[1], i), ev(e[2], i)
+        return a * b if e[0] == "mul" else a + b if e[0] == "add" else a - b if e[0] == "sub" else a / b
+    for (dst, e) in prog:
+        for i in range(L):
+            v = ev(e, i)
+            if dst[0] == "buf": mem["buf"][i] = v
+            else: mem["a%d" % dst[1]][i + dst[2]] = v
+    return mem
+
+def parse_canonical_prog(text):
+    """inverse of showProg (Lean) / show_prog (jit_ir.py)"""
+    import re
+    def loc(t):
+        if t == "buf[i]": return ("buf",)
+        m = re.match(r"a(\d)\[i\+(\d+)\]$", t)
+        return ("arg", int(m.group(1)), int(m.group(2)))
+    def expr(t):
+        if t.startswith("c") and len(t) == 17: return ("const", t[1:])
+        if t == "v1": return ("argval", 1)
+        m = re.match(r"(mul|add|sub|div)\((.*)\)$", t)
+        if m:
+            inner = m.group(2); depth = 0
+            for k, ch in enumerate(inner):
+                if ch == "(": depth += 1
+                elif ch == ")": depth -= 1
+                elif ch == "," and depth == 0:
+                    return (m.group(1), expr(inner[:k]), expr(inner[k + 1:]))
+        return ("ld", loc(t))
+    out = []
+    for st in [x for x in text.split(";") if x]:
+        d, e = st.split("=", 1)
+        out.append((loc(d), expr(e)))
+    return out
+
+def jit_programs_tie(exe, seed, n, fails, dist):
+    import subprocess, re, runner, jit_ir, random
+    r = subprocess.run([exe, "ir", str(seed), str(n)], capture_output=True, text=True, timeout=3000)
+    if r.returncode != 0:
+        fails.append((f"JIT driver (ir mode) exited with {r.returncode}", {"stderr": r.stderr[-1500:]}, False)); return 0
+    cases = re.split(r"^CASE ", r.stdout, flags=re.M)[1:]
+    model_lines = []; impl_progs = []; ctx = []
+    def lst(v): return [] if v == "-" else v.split(",")
+    for c in cases:
+        hdr = dict(t.split("=", 1) for t in c.splitlines()[0].split())
+        L = int(hdr["L"])
+        tb = dict(t.split("=", 1) for t in c.splitlines()[1].split()[1:])
+        irs = dict(re.findall(r"^IR (\w+)\n(.*?)\nENDIR", c, flags=re.M | re.S))
+        flat = [int(x) for x in lst(tb["flat"])]
+        if any(f % L for f in flat):
+            fails.append((f"jacobian_flat_ids_ of a JitProcessSet<{L}> are not multiples of L: {flat[:8]}", {"case": c[:300]}, True)); continue
+        def cnt(xs): return [str(len(xs))] + list(xs)
+        fl = ["jitprog", "forcing", str(L)] + cnt(lst(tb["nreact"])) + cnt(lst(tb["nprod"])) + cnt(lst(tb["rids"])) + cnt(lst(tb["pids"])) + cnt(lst(tb["yields"]))
+        infos = [x.split(":") for x in lst(tb["jinfo"])]
+        jl = ["jitprog", "jacobian", str(L), str(len(infos))] + [y for x in infos for y in x] + cnt(lst(tb["jrids"])) + cnt(lst(tb["jyields"])) \
+            + cnt([str(f // L) for f in flat])
+        for kind, line in (("forcing", fl), ("jacobian", jl)):
+            try:
+                fs = jit_ir.parse_module(irs.get(kind, ""))
+                if len(fs) != 1: raise jit_ir.IrShapeError(f"{len(fs)} functions in the module")
+                f = fs[0]
+                if f["L"] not in (None, L): raise jit_ir.IrShapeError(f"loops run to {f['L']}, the process set is for L={L}")
+                impl_progs.append(f["prog"])
+            except jit_ir.IrShapeError as e:
+                impl_progs.append(None)
+                fails.append((f"the {kind} function generated by the LLVM backend is not a sequence of lane loops of the modelled shape: {e}",
+                              {"cmd": f"{exe} ir {seed} {n}", "case": c.splitlines()[0]}, False))
+            model_lines.append(" ".join(line)); ctx.append((kind, L, hdr, tb))
+        # LU decomposition + linear solve for the pattern of J; diagonal shift of a whole JIT-built solver
+        pats = dict(re.findall(r"^(PATTERN|SOLVERPATTERN) (.*)$", c, flags=re.M))
+        def pat_tokens(p):
+            kv = dict(t.split("=", 1) for t in p.split())
+            es = [x.split(":") for x in lst(kv["elems"])]
+            return [kv["n"], str(len(es))] + [y for x in es for y in x]
+        jobs = []
+        try:
+            fs = {("lu" if f["name"].startswith("lu_decompose") else "solve" if f["name"].startswith("linear_solve") else f["name"]): f
+                  for f in jit_ir.parse_module(irs.get("lusolve", ""))}
+            jobs += [("lu", fs.get("lu"), pats["PATTERN"]), ("solve", fs.get("solve"), pats["PATTERN"])]
+            al = [f for f in jit_ir.parse_module(irs.get("solver", "")) if f["name"].startswith("alpha_minus_jacobian")]
+            jobs += [("alpha", al[0] if len(al) == 1 else None, pats["SOLVERPATTERN"])]
+        except jit_ir.IrShapeError as e:
+            fails.append((f"a function generated by the LLVM backend (LU / linear solve / diagonal shift) is not a sequence of lane loops of the modelled shape: {e}",
+                          {"cmd": f"{exe} ir {seed} {n}", "case": c.splitlines()[0]}, False))
+        for kind, f, pat in jobs:
+            if f is None:
+                fails.append((f"the {kind} function of the LLVM backend was not generated (or generated twice)", {"cmd": f"{exe} ir {seed} {n}", "case": c.splitlines()[0]}, False))
+                continue
+            if f["L"] not in (None, L):
+                fails.append((f"the {kind} function generated for L={L} loops to {f['L']}", {"cmd": f"{exe} ir {seed} {n}", "case": c.splitlines()[0]}, True)); continue
+            impl_progs.append(f["prog"])
+            model_lines.append(" ".join(["jitprog", kind, str(L)] + pat_tokens(pat))); ctx.append((kind, L, hdr, tb))
+    outs = runner.run_model(model_lines)
+    rnd = random.Random(seed)
+    for prog, out, line, (kind, L, hdr, tb) in zip(impl_progs, outs, model_lines, ctx):
+        dist["prog %s L=%d" % (kind, L)] = dist.get("prog %s L=%d" % (kind, L), 0) + 1
+        if prog is None:
+            continue
+        got = "jitprog %s L=%d prog=%s" % (kind, L, jit_ir.show_prog(prog))
+        if got == out:
+            continue
+        # the programs differ: look for an input on which they compute different values (the model's program is, by
+        # C18_jit_forcing / C18_jit_jacobian, the vectorised CPU kernel)
+        found = None
+        try:
+            mprog = parse_canonical_prog(out.split("prog=", 1)[1])
+            size = 1 + L * (2 + max([d[2] if d[0] == "arg" else 0 for d, _ in prog + mprog] +
+                                    [x[2] for _, e in prog + mprog for x in _locs(e) if x[0] == "arg"]))
+            for _ in range(20):
+                mem = dict(a0=[rnd.uniform(0.1, 2.0) for _ in range(size)], a1=[rnd.uniform(0.1, 2.0) for _ in range(size)],
+                           a2=[rnd.uniform(-1.0, 1.0) for _ in range(size)], buf=[rnd.uniform(-9, 9) for _ in range(L)], s=rnd.uniform(0.5, 50.0))
+                cp = lambda: {k: (list(v) if isinstance(v, list) else v) for k, v in mem.items()}
+                m1 = jit_run_prog(prog, L, cp())
+                m2 = jit_run_prog(mprog, L, cp())
+                bad = [(a, q) for a in ("a0", "a1", "a2") for q in range(size) if m1[a][q] != m2[a][q]]
+                if bad:
+                    a, q = bad[0]
+                    found = dict(arg0=mem["a0"], arg1=mem["a1"], arg2=mem["a2"], scalar=mem["s"], array="arg%s" % a[1], slot=q, generated=m1[a][q], cpu_kernel=m2[a][q])
+                    break
+        except Exception as e:
+            found = None
+        what = (f"the {kind} function the LLVM backend generates (L={L}, seed={hdr.get('seed')}) is not the program of the vectorised CPU kernel "
+                f"(C18_jit_{kind}): first differing loop #{_first_diff(got, out)}")
+        if found:
+            what += f"; on a random input slot {found['slot']} of {found['array']} is {found['generated']!r} instead of {found['cpu_kernel']!r}"
+        fails.append((what, {"cmd": f"{exe} ir {seed} {n}", "model_line": line, "impl": got[:3000], "model": out[:3000], "input": found}, bool(found)))
+    return len(model_lines)
+
+def _locs(e):
+    if e[0] == "ld": return [e[1]]
+    if e[0] in ("const", "argval"): return []
+    return _locs(e[1]) + _locs(e[2])
+
+def _first_diff(a, b):
+    xa = a.split("prog=", 1)[-1].split(";"); xb = b.split("prog=", 1)[-1].split(";")
+    for k in range(max(len(xa), len(xb))):
+        if k >= len(xa) or k >= len(xb) or xa[k] != xb[k]:
+            return f"{k}: generated '{xa[k] if k < len(xa) else '(none)'}' vs model '{xb[k] if k < len(xb) else '(none)'}'"
+    return "none"
 
 # =============================================================================== registry
 ASSUME_FP = "floating-point rounding is not modelled in the theorems; the model's Float run is compared bit-for-bit with the C++"
@@ -2650,10 +2799,10 @@ PROPS = {
              missing="data-race freedom of the C++ is validated by execution (TSan), not proved", assumptions=["the three-argument Solve overload (which writes solver_parameters_) is excluded, as in the property"]),
  "C17": dict(level="proof", gen=g_c17, rule="random histories of copy/move construct/assign, set, solve over up to 8 State objects under ASan+UBSan; final: solve on a copy == solve on its source",
              Ls={"quick": [0, 3], "thorough": [0, 1, 2, 3, 4]}, assumptions=["moved-from States are not used again (C++ contract)"]),
- "C18": dict(level="other", gen=None, special=special_c18, rule="seeded random mechanisms x L=1..4 x five parameter sets: JIT-built solver vs CPU vector solver on identical states, bitwise (status, final time, all counters, all concentrations); cell count L+1 must be rejected",
+ "C18": dict(level="proof", gen=None, special=special_c18, rule="seeded random mechanisms x L=1..4 x five parameter sets: (i) the textual IR of every function the LLVM backend generates (forcing, Jacobian on the declared and on the fill-closed pattern, Doolittle decomposition, linear solve, diagonal shift) read back into a lane-loop program and compared, loop for loop, with the program the model generates from the same tables/pattern; (ii) JIT-built solver and JIT functions vs CPU vector solver/kernels on identical data, bitwise; objects under test reached by construction and by move-assignment; cell count L+1 rejected at build time, block counts L-1, L+1, 2L, 3L rejected at run time",
              Ls={"quick": [0], "thorough": [0]},
-             explanation="Lean theorems cover only the decision logic of the three cell-count guards as written. Observational equivalence of the LLVM-generated functions with the vectorised C++ kernels is established by in-process differential execution (bit-exact), and the CPU vector kernels are themselves tied to the model by the other checks. LLVM code generation is trusted; the emitted IR is not parsed.",
-             missing="no theorem relates the generated programs to the tables (jitProgram = program was planned in DESIGN and not built)"),
+             explanation="Theorems (C18b, C18c): running the generated program (model of the five code generators, Model/JitProg.lean) computes exactly what the vectorised C++ kernel of the CPU backend computes for one group of L cells -- forcing, Jacobian (any flat-id table), Doolittle decomposition (any prior contents of L/U), forward/backward substitution, diagonal shift -- for every table/pattern, every L and every input; the guards reject every cell count other than L. The program is tied to the implementation on every run: the implementation emits its IR through the MICM_VERIF sink in JitFunction::Generate, tools/jit_ir.py checks that every basic block has the modelled loop shape and extracts (destination, expression) per loop, and the result must equal the model's program. The CPU vector kernels are tied to the per-cell specification by C01/C02/C03/C04/C13.",
+             missing="LLVM's optimiser, instruction selection and the ORC JIT linker are trusted (the IR is captured before optimisation; the differential execution of the compiled functions is the only evidence about them); IEEE multiplication is assumed commutative (the generated code multiplies rate*yield and x*U where the C++ multiplies yield*rate and U*x); that a JIT-built solver runs the same Rosenbrock driver as the CPU solver is by construction of the C++ template (JitRosenbrockSolver derives from AbstractRosenbrockSolver) and checked by whole-solve bitwise comparison, not by a theorem"),
  "C19": dict(level="proof", gen=g_c19, rule="all non-empty patterns n<=3 (quick) / n<=4 (thorough) + random larger, block counts 1..2L+1; all dense shapes rows 0..3L+1 x cols 0..6",
              Ls={"quick": [0, 1, 3], "thorough": [0, 1, 2, 3, 4]}, exhaustive={"quick": True, "thorough": True}),
  "C20": dict(level="proof", gen=g_c20, rule="builder error injection (missing system/reactions/species, unknown names, unused species), rejected setter calls inside valid histories, matrix access errors; under ASan+UBSan",
